@@ -216,6 +216,122 @@ int main(int argc, char** argv) {
             }
         }
     }
+    // ---- adversarial composites: the numbers that fool probabilistic / shortcut primality tests
+    //   A: p*q with q-1 = m(p-1)  (the shape of almost every strong pseudoprime)
+    //   B: p*q*r with (r-1) | (pq-1)  (contains every 3-factor Carmichael number with p,q below the bound)
+    //   C: published strong pseudoprimes / Carmichael numbers
+    //   D (thorough): every odd composite n < 2^32 with 2^(n-1) = 1 (mod n), found by scanning all odd n
+    {
+        auto mul32 = [](uint64_t a, uint64_t b, uint64_t m) { return a * b % m; };   // operands < 2^32
+        auto run_list = [&](const char* check, const P& prm, const std::vector<uint64_t>& ns) {
+            int hangs = 0;
+            size_t cur = 0;
+            while (cur < ns.size() && hangs < 3) {
+                auto o = forked(ctx, "isprime/factor", TMO, [&](ChildCtx& c) {
+                    for (size_t k = cur; k < ns.size(); ++k) {
+                        fb::shm()->prog[1] = (long long)k;
+                        check_pf(c, (uint32_t)ns[k]);
+                    }
+                });
+                if (!o.abnormal) break;
+                ++hangs;
+                cur = (size_t)o.r.prog[1] + 1;
+            }
+            if (hangs >= 3) ctx.cap(std::string(check) + ": stopped after 3 abnormal outcomes");
+            (void)prm;
+        };
+        // A
+        const uint64_t MA = T ? 64 : 16;
+        for (size_t b = 0; b < g_small.size(); b += 512) {
+            P prm = P().kv("family", "pq").kv("first_p", (long long)g_small[b]);
+            if (!ctx.take("prime.adversarial", prm)) continue;
+            std::vector<uint64_t> ns;
+            for (size_t i = b; i < std::min(g_small.size(), b + 512); ++i) {
+                uint64_t p = g_small[i];
+                for (uint64_t m = 2; m <= MA; ++m) {
+                    uint64_t q = m * (p - 1) + 1;
+                    if (p * q > 0xFFFFFFFFull) break;
+                    if (p >= 3 && mr_prime(q)) ns.push_back(p * q);
+                }
+            }
+            run_list("prime.adversarial", prm, ns);
+        }
+        // B
+        const uint32_t PB = T ? 6000 : 2000;
+        for (size_t i = 1; i < g_small.size() && g_small[i] < PB; ++i) {
+            uint64_t p = g_small[i];
+            P prm = P().kv("family", "pqr").kv("p", (long long)p);
+            if (!ctx.take("prime.adversarial", prm)) continue;
+            std::vector<uint64_t> ns;
+            for (size_t j = i + 1; j < g_small.size() && g_small[j] < PB; ++j) {
+                uint64_t q = g_small[j];
+                if (p * q * (q + 2) > 0xFFFFFFFFull) break;
+                uint64_t L = p * q - 1;
+                std::vector<uint64_t> divs{1};
+                auto f = ref_factor(L);
+                for (size_t a = 0; a < f.size();) {
+                    size_t e = a;
+                    while (e < f.size() && f[e] == f[a]) ++e;
+                    size_t base = divs.size();
+                    uint64_t pw = 1;
+                    for (size_t k = a; k < e; ++k) {
+                        pw *= f[a];
+                        for (size_t d = 0; d < base; ++d) divs.push_back(divs[d] * pw);
+                    }
+                    a = e;
+                }
+                for (uint64_t d : divs) {
+                    uint64_t r = d + 1;
+                    if (r > q && p * q * r <= 0xFFFFFFFFull && mr_prime(r)) ns.push_back(p * q * r);
+                }
+            }
+            run_list("prime.adversarial", prm, ns);
+        }
+        // C
+        {
+            P prm = P().kv("family", "published");
+            if (ctx.take("prime.adversarial", prm)) {
+                std::vector<uint64_t> ns = {
+                    // strong pseudoprimes to base 2; to bases 2,3; 2,3,5; 2,3,5,7
+                    2047, 3277, 4033, 4681, 8321, 15841, 29341, 42799, 49141, 52633, 65281, 74665, 80581, 85489, 88357, 90751,
+                    1373653, 1530787, 1987021, 2284453, 3116107, 5173601, 6787327, 11541307, 13694761, 15978007, 16070429,
+                    16879501, 25326001, 27509653, 27664033, 28527049, 54029741, 61832377, 66096253, 74927161, 80375707,
+                    95452781, 161304001, 960946321, 1157839381, 3215031751ull, 3697278427ull,
+                    // strong pseudoprimes to single bases 3, 5, 7, 11, 13
+                    121, 703, 1891, 3281, 8401, 8911, 781, 1541, 5461, 5611, 7813, 25, 325, 2101, 29857, 133, 793, 2353, 4577,
+                    85, 1099, 5149, 7107, 10261, 276, 341, 561, 645, 1105, 1387, 1729, 1905, 2465, 2701, 2821, 6601,
+                    // Carmichael numbers
+                    10585, 15841, 29341, 41041, 46657, 52633, 62745, 63973, 75361, 101101, 115921, 126217, 162401, 172081,
+                    188461, 252601, 278545, 294409, 314821, 334153, 340561, 399001, 410041, 449065, 488881, 512461, 825265,
+                    321197185, 4294967295ull /* 3*5*17*257*65537 */, 4294967297ull % 0x100000000ull,
+                    // squares / cubes of primes, Mersenne and Fermat neighbours
+                    65521ull * 65521ull, 65519ull * 65521ull, 46337ull * 46337ull, 1619ull * 1619 * 1619, 2147483647ull,
+                    2147483649ull, 4294967291ull, 4294967293ull, 4293001441ull, 3825123056546413051ull % 0x100000000ull,
+                };
+                run_list("prime.adversarial", prm, ns);
+            }
+        }
+        // D
+        if (T) {
+            const uint64_t BLK = 1ull << 25;
+            for (uint64_t lo = 1; lo < 0x100000000ull; lo += BLK) {
+                P prm = P().kv("family", "fermat2").kv("lo", (long long)lo);
+                if (!ctx.take("prime.adversarial", prm)) continue;
+                std::vector<uint64_t> ns;
+                for (uint64_t n = std::max<uint64_t>(lo, 3); n < lo + BLK; n += 2) {
+                    uint64_t e = n - 1, r = 1, a = 2;
+                    while (e) {
+                        if (e & 1) r = mul32(r, a, n);
+                        a = mul32(a, a, n);
+                        e >>= 1;
+                    }
+                    if (r == 1 && !mr_prime(n)) ns.push_back(n);
+                }
+                ctx.note("base-2 Fermat pseudoprimes found by the 32-bit scan", (long long)ns.size());
+                run_list("prime.adversarial", prm, ns);
+            }
+        }
+    }
     // ---- primes(n)
     {
         std::vector<uint32_t> args;
